@@ -164,6 +164,24 @@ func (c *c12) l1(thorough bool) {
 				r.Challenger = na
 			}
 		}
+		{ // immediately after the rotation: the new holder can act, the one just replaced cannot
+			r1 := env.Bridges[1]
+			nxt := env.NextOutputIndex(1)
+			for _, cand := range []signerCand{{"proposer-now", r1.Proposer.String()}, {"challenger-now", r1.Challenger.String()}} {
+				br := env.Branch()
+				isP := cand.addr == r1.Proposer.String()
+				c.probe("L1", env.L1.Enc, func(m sdk.Msg) sim.Result { return br.L1.Deliver(m) }, "MsgProposeOutput(immediately-after-rotation)",
+					ophosttypes.NewMsgProposeOutput(cand.addr, 1, nxt, r1.LastL2+1, bytes.Repeat([]byte{3}, 32)), cand, isP, tail(log, 6))
+			}
+			if n := len(past["proposer"]); n > 0 {
+				old := past["proposer"][n-1]
+				if old != r1.Proposer.String() {
+					br := env.Branch()
+					c.probe("L1", env.L1.Enc, func(m sdk.Msg) sim.Result { return br.L1.Deliver(m) }, "MsgProposeOutput(immediately-after-rotation)",
+						ophosttypes.NewMsgProposeOutput(old, 1, nxt, r1.LastL2+1, bytes.Repeat([]byte{3}, 32)), signerCand{"proposer-just-replaced", old}, false, tail(log, 6))
+				}
+			}
+		}
 		if len(past["proposer"]) > 4 {
 			past["proposer"] = past["proposer"][len(past["proposer"])-4:]
 		}
@@ -255,6 +273,34 @@ func (c *c12) l2Matrix(o *OracleEnv, admin string, execs []string, pastExecs, pa
 	}
 }
 
+// immediateExecutorProbe: right after a rotation (before anything else touches the keeper) the current executors can
+// finalize the next deposit and set bridge info, and no former executor can.
+func (c *c12) immediateExecutorProbe(o *OracleEnv, execs, pastExecs []string, log []string) {
+	in := func(a string, list []string) bool {
+		for _, x := range list {
+			if x == a {
+				return true
+			}
+		}
+		return false
+	}
+	seen := map[string]bool{}
+	for _, x := range append(append([]string{}, execs...), pastExecs...) {
+		if seen[x] {
+			continue
+		}
+		seen[x] = true
+		allowed := in(x, execs)
+		rel := "executor-just-appointed-or-kept"
+		if !allowed {
+			rel = "executor-just-rotated-out"
+		}
+		br := o.Branch()
+		msg := o.DepositMsg(sim.Account{Addr: sdk.MustAccAddressFromBech32(x)}, o.NextL1Seq(), "l1from", o.Users[1].String(), "uinit", math.NewInt(5), nil)
+		c.probe("L2", o.L2.Enc, func(m sdk.Msg) sim.Result { return br.L2.Deliver(m) }, "MsgFinalizeTokenDeposit(immediately-after-rotation)", msg, signerCand{rel, x}, allowed, log)
+	}
+}
+
 // executeMessages: admin-only batched execution, module authority as sole inner signer, all-or-nothing.
 func (c *c12) executeMessages(o *OracleEnv, admin string, log []string) {
 	run := c.run
@@ -310,6 +356,27 @@ func (c *c12) executeMessages(o *OracleEnv, admin string, log []string) {
 			run.Check("C12.execute_messages_all_or_nothing", ok, "c12.execute_messages_effects."+t.name, tr, "MsgExecuteMessages (%s): %s", t.name, why)
 		}
 		run.Distinct("L2/execute/" + t.name)
+		// the handler itself promises all-or-nothing (it runs the batch on its own branch): called directly, as another
+		// module's keeper would call it, a refused batch must leave the caller's context untouched
+		if !t.wantOK {
+			b2 := o.Branch()
+			if t.name == "inner bank send from the module account" {
+				continue
+			}
+			before := sim.Digest(b2.L2.Dump())
+			_, herr := func() (resp *opchildtypes.MsgExecuteMessagesResponse, err error) {
+				defer func() {
+					if r := recover(); r != nil {
+						err = fmt.Errorf("panic: %v", r)
+					}
+				}()
+				return b2.L2.MS.ExecuteMessages(b2.L2.Ctx.WithEventManager(sdk.NewEventManager()), msg)
+			}()
+			after := sim.Digest(b2.L2.Dump())
+			if herr != nil {
+				run.Check("C12.execute_messages_handler_level_atomic", before == after, "c12.execute_messages_partial."+t.name, tr, "MsgExecuteMessages (%s) returned an error but left effects of earlier inner messages in the caller's context", t.name)
+			}
+		}
 	}
 }
 
@@ -432,6 +499,8 @@ func (c *c12) l2(thorough bool) {
 			l2.EndBlock()
 			_, _ = l2.BeginBlock(1e9)
 		}
+		// a role change takes effect immediately: the very next gated message of the old and of the new holders
+		c.immediateExecutorProbe(o, execs, pastExecs, tail(log, 6))
 		if len(pastExecs) > 6 {
 			pastExecs = pastExecs[len(pastExecs)-6:]
 		}
@@ -446,6 +515,7 @@ func (c *c12) l2(thorough bool) {
 func checkC12(run *mon.Run, rng *mon.Rand, thorough bool) {
 	run.Rule = "authorization matrix: in each of N states reached by random role rotations (L1: proposer/challenger updates by governance or the holder, roles handed back to past holders; L2: executor lists via params and via executor-change plans, admin changes) every permissioned message type (8 on L1, 8 on L2) is built valid in every other respect (next output index, a deletable non-final output, a quorum-signed oracle commit, an existing validator, a funded fee pool), its proto-declared signer checked to be the candidate, and delivered on a copy-on-write branch for every candidate signer (governance/module authority, current holders, past holders, same role on the other bridge, admin, strangers). Expected: success iff the role table allows it. Plus MsgExecuteMessages all-or-nothing cases and the L2 bridge-binding mutations. Distinct non-trivial = matrix cells (chain, message, signer relation, expected verdict)"
 	run.Assumptions = []string{"role table maintained from successful rotation messages", "a probe's other fields are valid, so a rejection of an allowed signer is an authorization failure"}
+	run.Declare("C12.execute_messages_handler_level_atomic", 4)
 	for _, c := range []string{"C12.declared_signer_is_role_field", "C12.role_holder_accepted", "C12.non_holder_rejected", "C12.execute_messages_all_or_nothing", "C12.binding_fixed", "C12.binding_refresh_allowed"} {
 		run.Declare(c, 4)
 	}
